@@ -8,7 +8,10 @@
 (*  STREAM key, canon (TRUE for the canonical spelling, emitted first),    *)
 (*         dig (digest of the produced stream), hdrT (8 slot codes parsed  *)
 (*         from the header by the independent parser), hdrE, names, ename, *)
-(*         rt ("ok" when the stream decodes to the original)               *)
+(*         rt ("ok" when the stream decodes to the original), stagewise    *)
+(*         ("ok" when the stream, undone stage by stage with codecs built  *)
+(*         from the header types alone, gives the original; "n/a" when not *)
+(*         attempted)                                                      *)
 (***************************************************************************)
 EXTENDS Integers, Sequences, TLC, Json, IOUtils
 
@@ -39,6 +42,9 @@ Next ==
          /\ (e.ev = "TNAME" /\ ~TOk(e)) => PrintT(<<"VIOLATION_AT", l, "C15_transform_name">>)
          /\ (e.ev = "ENAME" /\ ~EOk(e)) => PrintT(<<"VIOLATION_AT", l, "C15_entropy_name">>)
          /\ (e.ev = "STREAM" /\ ~SOk(e)) => PrintT(<<"VIOLATION_AT", l, "C15_stream_differs">>)
+         \* every numeric type in the header names the codec variant that was actually used
+         /\ (e.ev = "STREAM" /\ SOk(e) /\ e.stagewise \notin {"ok", "n/a"})
+               => PrintT(<<"VIOLATION_AT", l, "C15_header_type_is_not_the_variant_used">>)
 
 Spec == Init /\ [][Next]_vars
 Consumed == TLCGet("stats").diameter - 1 = Len(Trace)
